@@ -47,7 +47,7 @@ def container_mutants(data, prefix=""):
             n = len(d) // 4
             vals = list(unpack("<" + "i" * n, d))
             for k in range(n):
-                for v in (-1, 0, 1):
+                for v in (-1, 0, 1, -2):        # -2: an entry that is neither a module number nor the "free" marker
                     if v != vals[k]:
                         nv = list(vals)
                         nv[k] = v
@@ -195,7 +195,48 @@ def chain(x, cycles, key):
                                                                                       "what": describe_difference(prev, y)}))
             break
         prev = y
+    if not vs:
+        vs += edited_purity(x, o, key)
     return "ok", vs, C.h8(y1)
+
+
+def edited_purity(x, o, key):
+    """Saving does not change the object's observable state ALSO when the loaded object has been edited before the save:
+    for every MetaModule of the file the number of exposed controllers is lowered / raised by one on a fresh load, then the
+    object is saved (stand-alone synth of the module, and the whole object): state before == state after, two saves equal."""
+    import rv.api as rv
+    from rv.project import Project
+
+    def metas(obj):
+        if isinstance(obj, Project):
+            return [i for i, m_ in enumerate(obj.modules) if m_ is not None and m_.mtype == "MetaModule"]
+        return [None] if getattr(obj.module, "mtype", None) == "MetaModule" else []
+
+    vs = []
+    for mi in metas(o)[:2]:
+        for delta in (-1, +1):
+            try:
+                o2 = C.load_bytes(x)
+                mm = o2.modules[mi] if mi is not None else o2.module
+                n = mm.user_defined_controllers
+                if not (0 <= n + delta <= 96):
+                    continue
+                mm.user_defined_controllers = n + delta
+                s0 = S.snapshot(o2)
+                for how in ("module-as-synth", "whole-object"):
+                    y = C.save(rv.Synth(mm)) if how == "module-as-synth" else C.save(o2)
+                    d = S.diff(s0, S.snapshot(o2))
+                    if d:
+                        vs.append(C.viol("save-not-pure", dict(key, path=C.first_diff_key(d), after_edit="count" + ("-1" if delta < 0 else "+1"), saved=how),
+                                         {"diff": S.diff_text(d)}))
+                        break
+                    y2 = C.save(rv.Synth(mm)) if how == "module-as-synth" else C.save(o2)
+                    if y2 != y:
+                        vs.append(C.viol("save-twice-differs", dict(key, after_edit="count" + ("-1" if delta < 0 else "+1"), saved=how), {}))
+                        break
+            except Exception:
+                continue
+    return vs[:2]
 
 
 def built_purity(p, key):
